@@ -22,7 +22,7 @@ def fusedCore (P : Prim) (st : MState) (name : String) (b : Base) (k : Val) : R 
   match (if b = .nil then (Except.error .invalidType : Except Err Val)
       else match P.incr st.mode b k with
         | .error e => .error e
-        | .ok r => .ok (.plain r)) with
+        | .ok r => checkType P st name (.plain r)) with
   | .error e => .error e
   | .ok v =>
     match setSym st.scopes name v with
@@ -42,7 +42,7 @@ def IncrLaw (P : Prim) : Prop :=
     = (if b = .nil then (Except.error .invalidType : Except Err Val)
        else match P.incr st.mode b k with
          | .error e => .error e
-         | .ok r => .ok (.plain r))
+         | .ok r => checkType P st name (.plain r))
 
 theorem fused_eq_unfused (hP : IncrLaw P) (st : MState) (name : String) (b : Base) (k : Val)
     (h : ∃ sym, getSym st.scopes name = some sym ∧ sym.val = .plain b) (hk : k.isMarker = false)
